@@ -46,7 +46,7 @@ RULE = (
     "case = (pool model, mode cache|codegen, fault kind, crash point).  truncate: the complete "
     "cache file is cut at offset n and given an mtime newer than the source so that the reader "
     "really unpickles it; quick sweeps EVERY offset 0..len of 2 pool models (offsets n with "
-    "n % shards == shard) and ~1300 Hypothesis-drawn offsets of the other 6, thorough sweeps "
+    "n % shards == shard) and ~1100 Hypothesis-drawn offsets of the other 6, thorough sweeps "
     "every offset of the 7 small models and every 8th offset of Big (160 kB cache, 4 write "
     "calls); the pickle frame headers/ends, the write-call boundaries, the start/end of every payload "
     "> 256 bytes (the serialised CasADi functions), the first 16 and last 4 offsets of every "
@@ -55,7 +55,7 @@ RULE = (
     "interleave: every (pa, pb): writer paused after pa = 0..W of its W writes, reader runs to "
     "completion (pb=-1) or is itself paused after pb = 0..W writes of its re-save while the "
     "first writer finishes.  codegen (4 cases per quick run, spread over kind x model x "
-    "position and rotating with the seed; 16 + 160 drawn in thorough): libraries present, cache missing / cut at a permille "
+    "position and rotating with the seed; 16 + 48 drawn in thorough): libraries present, cache missing / cut at a permille "
     "of its length / write crashed / writer paused before its first write.  After each fault: next call must not raise and must equal the "
     "uncached compile, the call after that must be a CachedModel and equal.  Equality = "
     "vf.canon.compare_models (names, order, types, outputs, alias relation, attributes at "
@@ -81,6 +81,11 @@ ASSUMPTIONS = [
     "calls after it are judged",
     "thread schedules are harness-owned and sequential (exactly one of writer/reader runs at "
     "any time), so every interleaving at write-call granularity is deterministic",
+    "both interleaved calls use the same compiler options; two writers with DIFFERENT options can "
+    "leave a byte-wise mix of two pickles (probe on Big: AttributeError / UnicodeDecodeError from "
+    "pickle.load, or a loadable mix): a write-write race, not 'a file a writer has not finished'",
+    "each worker caps its address space at 4 GiB so that unpickling garbage (mutants) ends in "
+    "MemoryError instead of the OOM killer",
     "attributes that depend on constants are not in the pool (save_model cannot build the "
     "metadata function for them at all: different property)",
 ]
@@ -753,7 +758,7 @@ def shard(ctx):
     # 3. codegen (gcc: 1-3 s CPU per compile, two compiles per case): one case on every fourth
     #    shard in quick, on every shard in thorough, spread deterministically over fault kind x
     #    model x cut position (a single Hypothesis draw per shard would be the minimal example
-    #    in all of them); thorough adds drawn cases
+    #    in all of them); thorough adds drawn cases at the end
     kinds = ["truncate", "missing", "write_crash", "interleave", "truncate"]
     every = 4 if ctx.tier == "quick" else 1
     if ctx.shard % every == ctx.seed % every and not ctx.over_budget():
@@ -766,16 +771,6 @@ def shard(ctx):
         elif case["fault"] == "interleave":
             case.update(pa=0, pb=-1)
         run_one(ctx, check_case, case)
-    if ctx.tier != "quick":
-        codegen = st.one_of(
-            st.fixed_dictionaries({"model": st.sampled_from(CODEGEN_MODELS), "mode": st.just("codegen"), "fault": st.just("truncate"),
-                                   "permille": st.integers(0, 999)}),
-            st.fixed_dictionaries({"model": st.sampled_from(CODEGEN_MODELS), "mode": st.just("codegen"), "fault": st.just("missing")}),
-            st.fixed_dictionaries({"model": st.sampled_from(CODEGEN_MODELS), "mode": st.just("codegen"), "fault": st.just("write_crash"),
-                                   "k": st.just(1), "partial": st.booleans()}),
-        )
-        drive(ctx, codegen, check_case, ctx.share(0, 160))
-
     # 4. every byte offset
     for name in swept:
         total = len(infos[name]["bytes"])
@@ -795,6 +790,17 @@ def shard(ctx):
             lambda nm: st.fixed_dictionaries({"model": st.just(nm), "mode": st.just("cache"), "fault": st.just("truncate"),
                                               "n": st.integers(0, len(infos[nm]["bytes"]) - 1), "full": st.just(False)}))
         drive(ctx, strat, check_case, 40 if rest == ["Big"] else 100)
+
+    # 6. thorough: drawn codegen cases, last (under load one case can take a minute)
+    if ctx.tier != "quick":
+        codegen = st.one_of(
+            st.fixed_dictionaries({"model": st.sampled_from(CODEGEN_MODELS), "mode": st.just("codegen"), "fault": st.just("truncate"),
+                                   "permille": st.integers(0, 999)}),
+            st.fixed_dictionaries({"model": st.sampled_from(CODEGEN_MODELS), "mode": st.just("codegen"), "fault": st.just("missing")}),
+            st.fixed_dictionaries({"model": st.sampled_from(CODEGEN_MODELS), "mode": st.just("codegen"), "fault": st.just("write_crash"),
+                                   "k": st.just(1), "partial": st.booleans()}),
+        )
+        drive(ctx, codegen, check_case, ctx.share(0, 48))
 
 
 def replay(ctx, case):
